@@ -13,8 +13,8 @@ RULE = ('Every message class x 1..N sources (IDs or carried elements) with a bla
         'Oracle from the abstract case: the exposed source lists carry exactly the named IDs in message order (a blank listed '
         'ID is None, never another ID); the exposed target carries the named ID, a blank/absent target is None or an element '
         'whose id is None; carried stories/items are exposed with their content (subtree equality against an independent '
-        'parse of the message text); inspect() returns and its output contains every non-blank source ID as a '
-        'whitespace-delimited token. Non-trivial = more than one source, a blank ID, a blank/absent target or pretty-printing.')
+        'parse of the message text); inspect() returns and its output contains every non-blank source ID (delimited by '
+        'non-alphanumeric characters). Non-trivial = more than one source, a blank ID, a blank/absent target or pretty-printing.')
 
 S_IDS = ['A', 'AB', 'C']
 I_IDS = ['a', 'ab', 'c']
@@ -162,7 +162,8 @@ def worker(ns, items, res, opts):
         except Exception as e:  # noqa
             bad(f'inspect-raised:{type(e).__name__}', f'inspect() raised {type(e).__name__}: {e}')
             continue
-        toks = buf.getvalue().split()
+        text_out = buf.getvalue()
+        toks = _Tokens(text_out)
         if kind not in ('RunningOrderReplace', 'MetaDataReplace'):
             missing = [s for s in srcs if s not in (BLANK, ABSENT) and s not in toks]
             if kind == 'StorySend' and _id(case['sid']) and case['sid'] not in toks:
@@ -173,6 +174,18 @@ def worker(ns, items, res, opts):
                 bad('inspect-omits-source', f'inspect() output {buf.getvalue()!r} does not mention {missing}')
         if len(res.samples) < 2 and (res.transitions + opts.get('seed', 0)) % 61 == 0:
             res.samples.append({'case': _show(case), 'pretty': pretty, 'inspect_output': buf.getvalue()[:200]})
+
+
+class _Tokens:
+    """`id in tokens`: the ID occurs in the text delimited by non-alphanumeric characters (the pools hold
+    IDs that are prefixes of one another, so a plain substring test would be too weak)."""
+
+    def __init__(self, text):
+        self.text = text
+
+    def __contains__(self, ident):
+        import re
+        return re.search(r'(?<![A-Za-z0-9])' + re.escape(ident) + r'(?![A-Za-z0-9])', self.text) is not None
 
 
 def _show(case):
@@ -214,7 +227,8 @@ def check(ns, m, case, base):
     def sources(objs, refs, what):
         got = _ids_of(objs)
         want = [_id(r) for r in refs]
-        if got != want:
+        # a blank listed ID names nothing: exposing it as None or leaving it out are both "exactly the IDs named"
+        if got != want and got != [w for w in want if w is not None]:
             dev = 'source-count' if len(got) != len(want) else 'blank-source-reported-as-id' if any(w is None and g is not None for g, w in zip(got, want)) else 'source-ids'
             yield (dev, f'{what}: exposed ids {got}, message names {want}')
 
